@@ -1,4 +1,5 @@
 import TriompheModel.WM.Consume
+import TriompheModel.WM.Later
 import TriompheModel.WM.ExampleConsume
 import TriompheModel.Generated.Atomics
 /-!
@@ -49,5 +50,21 @@ theorem exclusive_after_verdict {name : String} (hg : gateOk name = true)
       (h' = 0 ∨ ∃ j, rf = some j ∧ h' ∈ kids (X.ops.take (j+1))) → X.hb (.oth a) (.oth l) := by
   obtain ⟨g, hgm, hn, _, hacq, _⟩ := acq_of_gateOk hg
   exact unique_verdict_exclusive hc hp hrw hvb obl_dec_release hl (hacq o (ho g hgm hn)) hone
+
+/-- **No access through another handle is concurrent with the granted write**, at the orderings found in
+the source: with respect to a gate `name` that saw the count 1 through `h` and the write `w` it
+grants, every other handle is either a former sharer (all its accesses happen-before the write) or a
+later sharer — created beyond the point the gate read from, hence a descendant of `h` made after the
+`&mut` borrow ended (`MutExcl`) — all of whose accesses happen-after the write. -/
+theorem no_concurrent_access_after_verdict {name : String} (hg : gateOk name = true)
+    (hc : Consistent X) (hp : Protocol X Generated.decOrd fenceOrd) (hrw : CoRW X) (hvb : ViaBorn X)
+    {l w : X.A} {h : H} {o : MemOrd} {rf : Option Nat}
+    (hl : X.kind l = .load h o rf)
+    (ho : ∀ g ∈ Generated.gates, g.name = name → o ∈ g.loads)
+    (hone : valRead X.ops rf = 1) (hlw : X.hb (.oth l) (.oth w)) (hex : MutExcl X l w h) :
+    ∀ (a : X.A) (h' : H), (X.kind a).via = some h' → h' ≠ h →
+      X.hb (.oth a) (.oth w) ∨ X.hb (.oth w) (.oth a) := by
+  obtain ⟨g, hgm, hn, _, hacq, _⟩ := acq_of_gateOk hg
+  exact no_access_concurrent_with_granted_write hc hp hrw hvb obl_dec_release hl (hacq o (ho g hgm hn)) hone hlw hex
 
 end Gates
